@@ -52,6 +52,7 @@ inductive Expr
   | filter (xs : Expr) (param : String) (body : List Stmt)   -- fas.Filter(xs, func(param T) bool { body })
   | glob (name : String)                              -- package-level variable / constant / function value
   | assert2 (e : Expr) (ty : String)                  -- v, ok := e.(T)
+  | assert1 (e : Expr) (ty : String)                  -- e.(T) in a single-value context (panics when it fails: stuck)
   | not (e : Expr)
   | bin (op : String) (a b : Expr)
   | idx (e i : Expr)
@@ -213,6 +214,10 @@ def evalE {σ : Type} (P : Prims σ) (env : Env) (w : σ) : Expr → Option (Val
   | .assert2 e ty =>
     match evalE P env w e with
     | some (v, w1) => P.fn ("assert2:" ++ ty) [v] w1
+    | none => none
+  | .assert1 e ty =>
+    match evalE P env w e with
+    | some (v, w1) => P.fn ("assert1:" ++ ty) [v] w1
     | none => none
   | .filter xs param body =>
     match evalE P env w xs with
